@@ -133,8 +133,19 @@ impl Spec {
         }
     }
 
+    /// A packet of the crate's own making (its size must be a multiple of 4): not a part builder,
+    /// and not (a compound around) the harness's unaligned third-party writer.
     pub fn is_whole_packet(&self) -> bool {
-        !matches!(self, Spec::ChunkOnly(_) | Spec::ItemOnly(_) | Spec::FciOnly(_))
+        !matches!(self, Spec::ChunkOnly(_) | Spec::ItemOnly(_) | Spec::FciOnly(_)) && !self.contains_raw_third()
+    }
+
+    pub fn contains_raw_third(&self) -> bool {
+        match self {
+            Spec::Third { pt, payload, .. } => *pt == 254 && payload.len() % 4 != 0,
+            Spec::Compound { members } => members.iter().any(|m| m.contains_raw_third()),
+            Spec::Pb(i) => i.contains_raw_third(),
+            _ => false,
+        }
     }
 
     pub fn normalise(&mut self) {
@@ -796,7 +807,10 @@ fn gen_packet_raw(r: &mut Rng, cfg: &GenCfg) -> Spec {
         _ => {
             let dl = if r.below(1000) < cfg.invalid_pm { r.range(1, 11) } else { 4 * gen_len(r, &GenCfg { invalid_pm: 0, ..cfg.clone() }, 20) };
             let count = if r.below(1000) < cfg.invalid_pm { 32 + r.below(224) as u8 } else { r.below(32) as u8 };
-            Spec::Third { pt: r.range(207, 255) as u8, count, ssrc: r.u32_biased(), payload: r.bytes(dl), padding }
+            // an unaligned payload is an invalid configuration of the aligned flavour, and an accepted
+            // one of the raw flavour (packet type 254)
+            let pt = if dl % 4 != 0 && r.chance(1, 2) { 254 } else { r.range(207, 255) as u8 };
+            Spec::Third { pt, count, ssrc: r.u32_biased(), payload: r.bytes(dl), padding }
         }
     }
 }
